@@ -41,6 +41,12 @@ func (s *Protocol) Invoke(ctx context.Context, req []byte) (rsp []byte) {
 	defer CheckPanic()
 	reqPackage := requestf.RequestPacket{}
 	rspPackage := requestf.ResponsePacket{}
+	if len(req) < 4 {
+		// shorter than the length header: possible on UDP, where datagrams are not framed
+		rspPackage.IRet = basef.TARSSERVERDECODEERR
+		rspPackage.SResultDesc = "invalid packet: shorter than the header"
+		return s.rsp2Byte(&rspPackage)
+	}
 	is := codec.NewReader(req[4:])
 	reqPackage.ReadFrom(is)
 	// the transport reads the packet type from the context to decide whether to reply; record it
@@ -203,8 +209,10 @@ func (s *Protocol) InvokeTimeout(pkg []byte) []byte {
 	rspPackage := requestf.ResponsePacket{}
 	//  invoke timeout need to return IRequestId
 	reqPackage := requestf.RequestPacket{}
-	is := codec.NewReader(pkg[4:])
-	reqPackage.ReadFrom(is)
+	if len(pkg) >= 4 {
+		is := codec.NewReader(pkg[4:])
+		reqPackage.ReadFrom(is)
+	}
 	rspPackage.IVersion = reqPackage.IVersion
 	rspPackage.CPacketType = reqPackage.CPacketType
 	rspPackage.IRequestId = reqPackage.IRequestId
